@@ -48,9 +48,27 @@ func isNaN(v interface{}) bool {
 
 // checkExactFns: abs ceil floor round roundBank toInt toFloat toString finite on x.
 func checkExactFns(x decOperand) string {
-	xl := x.lit(1)
+	if m := checkExactFnsSpelled(x, x.lit(1)); m != "" {
+		return m
+	}
+	// the same value in other representations: trailing zeros, shifted exponent, computed
+	alt := x
+	alt.Coef, alt.Exp = x.Coef+"00", x.Exp-2
+	if m := checkExactFnsSpelled(x, alt.lit(1)); m != "" {
+		return m
+	}
+	if m := checkExactFnsSpelled(x, alt.lit(0)); m != "" {
+		return m
+	}
+	return checkExactFnsSpelled(x, "("+x.lit(0)+" * 1.00)")
+}
+
+func checkExactFnsSpelled(x decOperand, xl string) string {
 	xr := x.rat()
 	sl := "'" + strings.Trim(x.lit(1), "()") + "'" // numeric string spelling (may carry a minus sign)
+	if strings.Contains(xl, "*") {
+		sl = "'" + strings.Trim(x.lit(0), "()") + "'"
+	}
 	f := fmt.Sprintf("[abs(%s), ceil(%s), floor(%s), round(%s), roundBank(%s), toInt(%s), toFloat(%s), toString(%s), finite(%s), toFloat(%s), toInt(%s), toFloat(toString(%s))]", xl, xl, xl, xl, xl, xl, xl, xl, xl, sl, sl, xl)
 	arr, msg := evalArr(f, nil)
 	if msg != "" {
